@@ -55,11 +55,21 @@ fn observe_tx(tx: &MultiEraTx) -> Tx4 {
     }
 }
 
-fn coq_shape(s: &Shape) -> String {
-    format!("(mk_sblock {} {} {} {})", coq_list(&s.bodies, |x| x.to_string()), coq_list(&s.wits, |x| x.to_string()),
-        coq_list(&s.aux, |(k, v)| format!("({},{})", k, v)), coq_opt(&s.invalid, |l| coq_list(l, |x| x.to_string())))
+/// compact names (number literals are expensive to parse in Coq): each distinct digest of a
+/// case is printed as its number of first appearance; equality is preserved exactly
+#[derive(Default)]
+struct Names { seen: std::cell::RefCell<Vec<u64>> }
+impl Names {
+    fn id(&self, x: &u64) -> String {
+        let mut s = self.seen.borrow_mut();
+        match s.iter().position(|y| y == x) { Some(p) => p.to_string(), None => { s.push(*x); (s.len() - 1).to_string() } }
+    }
 }
-fn coq_tx4(t: &Tx4) -> String { format!("({},{},{},{})", t.0, t.1, coq_bool(t.2), coq_opt(&t.3, |x| x.to_string())) }
+fn coq_shape(s: &Shape, n: &Names) -> String {
+    format!("(mk_sblock {} {} {} {})", coq_list(&s.bodies, |x| n.id(x)), coq_list(&s.wits, |x| n.id(x)),
+        coq_list(&s.aux, |(k, v)| format!("({},{})", k, n.id(v))), coq_opt(&s.invalid, |l| coq_list(l, |x| x.to_string())))
+}
+fn coq_tx4(t: &Tx4, n: &Names) -> String { format!("({},{},{},{})", n.id(&t.0), n.id(&t.1), coq_bool(t.2), coq_opt(&t.3, |x| n.id(x))) }
 
 struct Ctx { oracle_only: bool, per_key: HashMap<String, u64>, evals: u64, stats: HashMap<String, u64> }
 impl Ctx {
@@ -77,6 +87,7 @@ fn run_block(cx: &mut Ctx, tag: &str, name: &str, bytes: &[u8], intent: Option<&
     cx.evals += 1;
     let prefix: Vec<u8> = bytes.iter().take(12).cloned().collect();
     let pc = match guard_total(|| probe_code(&block_era(bytes))) { Out::Ok(c) => c, _ => { cx.fail("probe-panic", format!("{}: probe::block_era panicked on {}", name, hexcut(bytes))); return; } };
+    let names = Names::default();
     let r = guard_total(|| -> Option<(String, i64, u64, Vec<Tx4>, Option<Shape>, Vec<(u64, u64)>)> {
         let b = MultiEraBlock::decode(bytes).ok()?;
         let txs: Vec<Tx4> = b.txs().iter().map(observe_tx).collect();
@@ -84,11 +95,11 @@ fn run_block(cx: &mut Ctx, tag: &str, name: &str, bytes: &[u8], intent: Option<&
             MultiEraBlock::EpochBoundary(_) => ("BEpochBoundary".into(), None, vec![]),
             MultiEraBlock::Byron(x) => {
                 let p: Vec<(u64, u64)> = x.body.tx_payload.iter().map(|t| (body_id(t.transaction.raw_cbor()), fnv(t.witness.raw_cbor()))).collect();
-                (format!("(BByron {})", coq_list(&p, |(a, w)| format!("({},{})", a, w))), None, p)
+                (format!("(BByron {})", coq_list(&p, |(a, w)| format!("({},{})", names.id(a), names.id(w)))), None, p)
             }
-            MultiEraBlock::AlonzoCompatible(x, e) => { let s = shape_of!(x); (format!("(BAlonzoCompatible {} {})", coq_shape(&s), era_name(*e)), Some(s), vec![]) }
-            MultiEraBlock::Babbage(x) => { let s = shape_of!(x); (format!("(BBabbage {})", coq_shape(&s)), Some(s), vec![]) }
-            MultiEraBlock::Conway(x) => { let s = shape_of!(x); (format!("(BConway {})", coq_shape(&s)), Some(s), vec![]) }
+            MultiEraBlock::AlonzoCompatible(x, e) => { let s = shape_of!(x); (format!("(BAlonzoCompatible {} {})", coq_shape(&s, &names), era_name(*e)), Some(s), vec![]) }
+            MultiEraBlock::Babbage(x) => { let s = shape_of!(x); (format!("(BBabbage {})", coq_shape(&s, &names)), Some(s), vec![]) }
+            MultiEraBlock::Conway(x) => { let s = shape_of!(x); (format!("(BConway {})", coq_shape(&s, &names)), Some(s), vec![]) }
             _ => return None,
         };
         Some((m, era_code(b.era()), b.tx_count() as u64, txs, shape, byron))
@@ -145,7 +156,7 @@ fn run_block(cx: &mut Ctx, tag: &str, name: &str, bytes: &[u8], intent: Option<&
             if txs.iter().any(|t| !t.2) { cx.bump("blocks-with-invalid-tx"); }
             if txs.iter().any(|t| t.3.is_some()) && txs.iter().any(|t| t.3.is_none()) { cx.bump("blocks-with-sparse-aux"); }
             if to_model && !cx.oracle_only {
-                emit_case(tag, &format!("(CBlock {} {} {} {} {})", coq_bytes(&prefix), m, coq_z(era), count, coq_list(&txs, coq_tx4)));
+                emit_case(tag, &format!("(CBlock {} {} {} {} {})", coq_bytes(&prefix), m, coq_z(era), count, coq_list(&txs, |t| coq_tx4(t, &names))));
             }
         }
     }
@@ -245,8 +256,8 @@ fn main() {
         vec![0x99, 0x00, 0x02, 0x07], vec![0x9a, 0, 0, 0, 2, 1], vec![0x9b, 0, 0, 0, 0, 0, 0, 0, 2, 2], vec![0x9b, 0, 0, 0, 0, 0, 0, 0, 2], vec![0x83, 0x01], vec![0x81, 0x01], vec![0x82, 0x20], vec![0x82, 0x41, 0x01], vec![0xa2, 0x01], vec![0x82, 0xf6], vec![0x82, 0x18, 0xff], vec![0x9c, 0x02, 0x01], vec![0x82, 0x1c]];
     for t in 0u8..=30 { probes.push(vec![0x82, t, 0x80]); probes.push(vec![0x82, 0x18, t]); }
     for _ in 0..(args.n / 2).max(100) {
-        let mut v = match rng.below(4) { 0 => rng.bytes(rng.below(6) as usize), 1 => { let mut p = rng.pick(&probes).clone(); if !p.is_empty() { let i = rng.below(p.len() as u64) as usize; p[i] ^= 1 << rng.below(8); } p } 2 => vec![0x80 + rng.below(0x20) as u8, rng.byte(), rng.byte(), rng.byte()], _ => { let (_, b) = rng.pick(&corpus); b.iter().take(rng.below(6) as usize).cloned().collect() } };
-        if rng.chance(1, 3) { v.extend(rng.bytes(rng.below(5) as usize)); }
+        let mut v = match rng.below(4) { 0 => { let k = rng.below(6) as usize; rng.bytes(k) } 1 => { let mut p = rng.pick(&probes).clone(); if !p.is_empty() { let i = rng.below(p.len() as u64) as usize; p[i] ^= 1 << rng.below(8); } p } 2 => vec![0x80 + rng.below(0x20) as u8, rng.byte(), rng.byte(), rng.byte()], _ => { let k = rng.below(6) as usize; let (_, b) = rng.pick(&corpus); b.iter().take(k).cloned().collect() } };
+        if rng.chance(1, 3) { let k = rng.below(5) as usize; v.extend(rng.bytes(k)); }
         probes.push(v);
     }
     for p in &probes {
